@@ -48,23 +48,6 @@ def full_map(jitlib, prog):
     return q
 
 
-def count_stores(spec, prog, idx):
-    """number of memory destinations in the IR of instruction @idx of @prog"""
-    from miasm.core.bin_stream import bin_stream_str
-    from miasm.core.locationdb import LocationDB
-    off, ln, txt, nm = prog.instrs[idx]
-    try:
-        loc_db = LocationDB()
-        lifter = spec.machine.lifter(loc_db)
-        raw = prog.code[off - spec.L.CODE: off - spec.L.CODE + ln]
-        instr = spec.mn.dis(bin_stream_str(raw, base_address=off), spec.attrib, off)
-        ircfg = lifter.new_ircfg()
-        lifter.add_instr_to_ircfg(instr, ircfg)
-        return sum(1 for blk in ircfg.blocks.values() for ab in blk for dst in ab if dst.is_mem())
-    except Exception:
-        return -1
-
-
 def run_shard(params, rec):
     common.quiet()
     from miasm.jitter.csts import PAGE_READ, PAGE_WRITE, EXCEPT_ACCESS_VIOL
@@ -159,7 +142,7 @@ def run_shard(params, rec):
         rec.count("position:" + pos)
         if d is not None:
             kind = d[0]
-            nstores = count_stores(spec, prog, idx)
+            nstores = jitlib.count_stores(spec, prog, idx)
             kind += ", multi-store instruction" if nstores > 1 else (", single store" if nstores == 1 else ", no store")
             key = "%s: faulting instruction has a %s effect (%s)" % (backend, kind, spec.family)
             if nstores > 1 and d[0] == "memory":
